@@ -1,6 +1,7 @@
 package props
 
 import (
+	"context"
 	"net/http"
 	"net/url"
 	"os"
@@ -19,6 +20,7 @@ func init() {
 	register("C20_SMTPMailer", C20_SMTPMailer)
 	register("C20_BodyReader", C20_BodyReader)
 	register("C20_MailGoroutines", C20_MailGoroutines)
+	register("C20_LogMailerAtomic", C20_LogMailerAtomic)
 	register("C20_ResponderRedirector", C20_ResponderRedirector)
 }
 
@@ -28,9 +30,18 @@ type recordingRouter struct {
 	order []string
 }
 
-func (r *recordingRouter) Get(p string, h http.Handler)    { r.order = append(r.order, "GET "+p); r.Router.Get(p, h) }
-func (r *recordingRouter) Post(p string, h http.Handler)   { r.order = append(r.order, "POST "+p); r.Router.Post(p, h) }
-func (r *recordingRouter) Delete(p string, h http.Handler) { r.order = append(r.order, "DELETE "+p); r.Router.Delete(p, h) }
+func (r *recordingRouter) Get(p string, h http.Handler) {
+	r.order = append(r.order, "GET "+p)
+	r.Router.Get(p, h)
+}
+func (r *recordingRouter) Post(p string, h http.Handler) {
+	r.order = append(r.order, "POST "+p)
+	r.Router.Post(p, h)
+}
+func (r *recordingRouter) Delete(p string, h http.Handler) {
+	r.order = append(r.order, "DELETE "+p)
+	r.Router.Delete(p, h)
+}
 
 // defaultsFlow: the instance wired with the shipped default router, error handler, responder,
 // redirector, body reader, logger and log mailer (defaults.SetCore) over the JSON renderer; the
@@ -230,4 +241,26 @@ func C20_MailGoroutines() {
 	_ = nMail
 	n := verif.SharedWrites("no data race between a request and the mail goroutine it starts")
 	verif.Assert(n == 0, "mail goroutines write nothing they share with the request")
+}
+
+// countingWriter counts Write calls (each one is atomic on an *os.File; two are not).
+type countingWriter struct{ writes int }
+
+func (c *countingWriter) Write(p []byte) (int, error) { c.writes++; return len(p), nil }
+
+// C20_LogMailerAtomic: "each client observes exactly the responses ... it would have observed
+// had the other clients' requests not been running", for the shipped log mailer, whose writer
+// (os.Stdout by default) is shared by all mail goroutines and the logger: one mail is handed to
+// the writer in exactly one Write, whatever its bodies contain (in particular '\r' and '\n'),
+// so that concurrent mails cannot interleave.
+func C20_LogMailerAtomic() {
+	cw := &countingWriter{}
+	m := defaults.NewLogMailer(cw)
+	mail := authboss.Email{
+		To: []string{"a@x"}, From: "f@x", Subject: verif.String("subject", 3),
+		TextBody: verif.Chars("text", verif.Choice("textLen", 4)), HTMLBody: verif.Chars("html", verif.Choice("htmlLen", 3)),
+	}
+	err := m.Send(context.Background(), mail)
+	verif.Assert(err == nil, "the log mailer reports no error")
+	verif.Assert(cw.writes == 1, "one mail is one Write on the shared writer")
 }
